@@ -191,9 +191,21 @@ def mutate_tempo(t, salt):
         t.bpm = t.bpm + salt
 
 
+def unpicklable(case, ev):
+    """every fourth case (decided by the case text) carries an unpicklable parameter on its first leaf: copy() then takes
+    its documented fallback (copy.deepcopy) instead of the pickle round trip"""
+    if sum(map(ord, sx.show(case))) % 4 != 0:
+        return
+    for o in reach(ev).values():
+        if isinstance(o, ce.Chronon):
+            o.hook = lambda: None
+            return
+
+
 def run_copyop(case):
     op = case[1]
     src = gbuild(case[2], {}, {}, {})
+    unpicklable(case, src)
     before = deep_snap(src)
     if op == "copy":
         r = src.copy()
@@ -220,6 +232,7 @@ def run_copyop(case):
     if deep_snap(src) != before:
         flags.append("a-change-of-the-result-is-visible-in-the-source")
     src2 = gbuild(case[2], {}, {}, {})   # the mutation test the other way round on a fresh pair
+    unpicklable(case, src2)
     if op == "copy":
         r2 = src2.copy()
     elif op == "dcopy":
@@ -280,7 +293,16 @@ def run(case):
             r = t.get_parameter("pitch", flat=flat, filter_undefined=filt)
             return ["ok"] + [snest(x) for x in r]
         if k == "setdur":
-            heap_apply(memo, case[3], "duration", lambda v: int(v) / TICK)
+            # leaves of equal length may share ONE Duration object (a note value defined once and used for many notes):
+            # every value that occurs for an object id divisible by 3 comes from a pool
+            pool = {}
+            for i, v in case[3]:
+                o = memo.get(int(i))
+                if o is not None and isinstance(o, ce.Chronon) and v != "none":
+                    if int(i) % 3 == 0:
+                        o.duration = pool.setdefault(int(v), cp.DirectDuration(int(v) / TICK))
+                    else:
+                        o.duration = int(v) / TICK
             before = ticks(t.duration)
             t.duration = int(case[2]) / TICK
             ls = {o.oid: o for o in leaves(t)}
